@@ -31,4 +31,4 @@ Deliver in `{wt}-out/`:
   1. `patch.diff` — output of `git diff` in the worktree (must apply to the pristine tree with `git apply`).
   2. A demonstration: a shell script `demo.sh` (and any small C program / input files it needs, with build commands inside the script, building against the worktree given as $1) that exits non-zero / prints FAIL when run against the changed tree and exits 0 / prints PASS against the pristine tree.  It must demonstrate a violation of the property as stated (not merely a behavioural difference).
   3. `meta.json`: {{"property": "{p['id']}", "summary": "...one line...", "needs_to_manifest": "...what specific input/sequence/fault/interleaving is needed...", "files_touched": [...], "tests": "how you ran the suite and the result with the change applied"}}.
-Before you finish: verify (a)–(d) yourself — rebuild from clean with the change, run the full suite, run demo.sh against the changed worktree and against a pristine copy (e.g. `git stash` / `git stash pop`, or a second checkout under `{wt}-out/pristine` that you delete afterwards).  Leave the worktree WITH the change applied.  Reply with a 5-line summary.""")
+Before you finish: verify (a)–(d) yourself — rebuild from clean with the change, run the full suite, run demo.sh against the changed worktree and against a pristine copy (use a second checkout under `{wt}-out/pristine` - e.g. `git diff > p.diff; cp -a` the tree and `git apply -R p.diff` there - that you delete afterwards; do NOT use `git stash`: the stash is shared between all worktrees of this repository and other volunteers are working in parallel).  Leave the worktree WITH the change applied.  Reply with a 5-line summary.""")
